@@ -276,6 +276,10 @@ def systematic_corner():
         out.append(case(Fw, cross(full, X, [K("ExactlyK", k=1, f=2, l=1)]), "B", ["weights-uncrossed", "ExactlyK", xn], "cor-wu-%s-exk" % xn))
         out.append(case(Fw, cross(full, X, [K("Exclude", f=3, l=1)], False), "B", ["weights-uncrossed", "Exclude-derived", xn], "cor-wu-%s-exd" % xn))
         out.append(case(Fw, cross(full, X, [K("AtMostKInARow", k=1, f=3, l=1)]), "B", ["weights-uncrossed", "AtMostK-derived", xn], "cor-wu-%s-atmostd" % xn))
+        # constraints on a WHOLE factor (every level) that weight desugaring replaces (FX18)
+        out.append(case(Fw, cross(full, X, [K("AtMostKInARow", k=1, f=2, l=0)]), "B", ["weights-uncrossed", "whole-factor", xn], "cor-wu-%s-atmost-whole" % xn))
+        out.append(case(Fw, cross(full, X, [K("AtMostKInARow", k=1, f=3, l=0)]), "B", ["weights-uncrossed", "whole-factor-derived", xn], "cor-wu-%s-atmostd-whole" % xn))
+        out.append(case(Fw, cross(full, X, [K("AtLeastKInARow", k=2, f=3, l=0)]), "B", ["weights-uncrossed", "whole-factor-derived", xn], "cor-wu-%s-atleastd-whole" % xn))
     out.append(case(Fw, cross([1, 2], [1], [K("MinimumTrials", k=3)]), "B", ["weights-uncrossed", "MinimumTrials"], "cor-wu-min3"))
     # Pin / ExactlyK / Exclude on a Transition factor (no level at trial 0)
     for X, xn in [([1, 2], "x12"), ([1, 4], "x14"), ([1], "x1")]:
@@ -320,6 +324,34 @@ def systematic_corner():
                     ["mixed-readiness", "Exclude"], "cor-mixed-excl"))
     out.append(case(M, cross([1, 2, 3, 4], [2], [K("MinimumTrials", k=3), K("ExactlyK", k=1, f=4, l=2)]), "B",
                     ["mixed-readiness", "ExactlyK"], "cor-mixed-exk"))
+    # the design lists a derived factor before the factors it is derived from (FX16)
+    O = [basic("a", 2), basic("b", 2)]
+    O.append(derived(O, "d", [1, 2], "within", table=eq_table(O, [1, 2])))
+    O.append(derived(O, "dd", [3], "transition", table=eq_table(O, [3], 2)))
+    for order in ([4, 3, 2, 1], [1, 2, 4, 3], [4, 1, 2, 3], [3, 4, 1, 2]):
+        on = "".join(map(str, order))
+        out.append(case(O, cross(order, [1, 2]), "B", ["design-order", "implied"], "cor-order%s-implied" % on))
+        out.append(case(O, cross(order, [1, 2], [K("AtMostKInARow", k=1, f=4, l=1)]), "B", ["design-order", "AtMostKInARow"],
+                        "cor-order%s-atmost" % on))
+        out.append(case(O, cross(order, [2, 1]), "B", ["design-order", "crossing-order"], "cor-order%s-x21" % on))
+    # a window over a Transition that starts before the Transition has a level: None at those positions (FX17)
+    def _tbl(Fx, deps, width, start):
+        dom = window_domain(Fx, deps, width, none_positions(Fx, deps, width, start))
+        return [[t for t in dom if len(set(t)) == 1], [t for t in dom if len(set(t)) != 1]]
+    for a_n in (2, 3):
+        E = [basic("a", a_n)]
+        E.append(derived(E, "tr", [1], "transition", table=eq_table(E, [1], 2)))
+        for st in (0, 1):
+            G = E + [derived(E, "ww", [2], "window", width=2, start=st, table=_tbl(E, [2], 2, st))]
+            out.append(case(G, cross([1, 2, 3], [1], [K("MinimumTrials", k=4)]), "B", ["early-start-over-complex", "implied"],
+                            "cor-early-a%d-ww%d-implied" % (a_n, st)))
+            out.append(case(G, cross([1, 2, 3], [1], [K("MinimumTrials", k=4), K("ExactlyK", k=1, f=3, l=2)]), "B",
+                            ["early-start-over-complex", "ExactlyK"], "cor-early-a%d-ww%d-exk" % (a_n, st)))
+            out.append(case(G, cross([1, 2, 3], [3], []), "B", ["early-start-over-complex", "crossed"],
+                            "cor-early-a%d-ww%d-crossed" % (a_n, st)))
+        G = E + [derived(E, "w1", [2], "window", width=1, start=0, table=_tbl(E, [2], 1, 0))]
+        out.append(case(G, cross([1, 2, 3], [1], [K("MinimumTrials", k=4)]), "B", ["early-start-over-complex", "implied"],
+                        "cor-early-a%d-w1-implied" % a_n))
     # MinimumTrials below the crossing size, equal to it, 1
     for m in (1, 3, 4):
         out.append(case(F, cross(full, [1, 2], [K("MinimumTrials", k=m)]), "B", ["MinimumTrials", "small"], "cor-min%d" % m))
@@ -501,13 +533,20 @@ def large_cases(rng, n_random=0):
     import gen_blocks as gb
     F = stroop(2, 3)
     inner = cross([1, 2, 3, 4], [1, 2], [K("AtMostKInARow", k=1, f=3, l=1)])
-    add("repeat-stroop2x3", F, gb.rep(dict(inner, cons=inner["cons"] + [K("MinimumTrials", k=18)])), ["Repeat"])
-    add("repeat-out-atmost", F, gb.rep(cross([1, 2, 3, 4], [1, 2], [K("MinimumTrials", k=12)]),
-                                      [K("AtMostKInARow", k=2, f=2, l=0)]), ["Repeat", "outer-constraint"])
-    add("repeat-xrep-in-atmost", F, gb.rep(cross([1, 2, 3, 4], [2, 4], [K("AtMostKInARow", k=1, f=1, l=1),
-                                                                      K("MinimumTrials", k=14)])), ["Repeat", "transition-crossed"])
-    add("repeat-xrep-out-exk", F, gb.rep(cross([1, 2, 3, 4], [2, 4], [K("MinimumTrials", k=14)]),
-                                         [K("AtMostKInARow", k=2, f=3, l=2)]), ["Repeat", "transition-crossed"])
+    add("repeat-stroop2x3", F, gb.rep(inner, [K("MinimumTrials", k=18)]), ["Repeat", "inner"])
+    add("repeat-stroop2x3-part", F, gb.rep(inner, [K("MinimumTrials", k=15)]), ["Repeat", "inner", "partial-last"])
+    add("repeat-in-min", F, gb.rep(dict(inner, cons=inner["cons"] + [K("MinimumTrials", k=12)])), ["Repeat", "inner-min"])
+    add("repeat-out-atmost", F, gb.rep(cross([1, 2, 3, 4], [1, 2]),
+                                      [K("MinimumTrials", k=12), K("AtMostKInARow", k=2, f=2, l=0)]), ["Repeat", "outer"])
+    add("repeat-xrep-in-atmost", F, gb.rep(cross([1, 2, 3, 4], [2, 4], [K("AtMostKInARow", k=1, f=1, l=1)]),
+                                           [K("MinimumTrials", k=14)]), ["Repeat", "transition-crossed", "inner"])
+    add("repeat-xrep-in-exk", F, gb.rep(cross([1, 2, 3, 4], [2, 4], [K("ExactlyK", k=2, f=1, l=1)]),
+                                        [K("MinimumTrials", k=14)]), ["Repeat", "transition-crossed", "inner"])
+    add("repeat-xrep-in-pin", F, gb.rep(cross([1, 2, 3, 4], [2, 4], [K("Pin", i=0, f=1, l=1)]),
+                                        [K("MinimumTrials", k=20)]), ["Repeat", "transition-crossed", "inner"])
+    add("repeat-xrep-out-atmost", F, gb.rep(cross([1, 2, 3, 4], [2, 4], []),
+                                            [K("MinimumTrials", k=14), K("AtMostKInARow", k=2, f=3, l=2)]),
+        ["Repeat", "transition-crossed", "outer"])
     F = [basic("a", 3), basic("b", 3), basic("c", 2)]
     F.append(derived(F, "t", [3], "transition", table=eq_table(F, [3], 2)))
     add("multi-ab-ac", F, gb.multi([1, 2, 3, 4], [[1, 2], [1, 3]]), ["Multi"])
